@@ -28,13 +28,16 @@ func init() {
 				"R7: no handler of the pipeline modifies the EDNS data (OPT record, Extra section) of the request message it received (directly or through a callee): the writers read the client's EDNS size, DO bit and options from that very object.",
 			NotCovered: "that dns.Msg.Truncate really fits the size and the encoded sizes themselves; the up-to-36-byte padding " +
 				"overshoot on DoH acknowledged in a code comment (numeric, out of static reach).",
-			Rules: map[string]string{"C08-R17": "a pooled receive buffer is returned only after the request decoded from it has been served (buffer-lifetime rules shared with C06-R2)", "C08-R15": "the simple cache leaves the cached OPT record out of a hit (hop-by-hop options of the first requester do not reach later clients)", "C08-R16": "genErrorResponse builds the server's own error answers by SetRcode alone, so normalize gives them a fresh OPT record", "C08-R14": "optCloner.clone resets every field of the pooled OPT record, so padding and keep-alive options of an earlier response do not reach another client (shared with C07-R1)", "C08-RC": "class rules (error chains, shadowed results, character classes, crossed arguments, pool constructors, array pools, loop completeness, loop-carried buffers, replacing setters, complete clones, Grow arithmetic, pooled-buffer escape, sorted searches, fresh decode targets, per-iteration objects, whole-message copies, codec guards) over the packages this property rests on", "C08-R13": "addEDE builds a fresh response OPT from the request's UDP size and DO bit only", "C08-R12": "the filtered response is written once and for the original request (pipeline table shared with C01-R10)", "C08-R1": "normalise-before-serialise in every wire writer", "C08-R2": "maxDNSSize over all orderings",
+			Rules: map[string]string{"C08-R19": "ecscache writeUpstreamResponse removes hop-to-hop options before the clone goes to the cache (store order; shared with C04-R5)", "C08-R18": "reservedLen: normalize truncates DNSCrypt responses to the limit less the bytes the dnscrypt module reserves for its header (the constant is read from the module's own normalize), so the module, which keeps the answers that still fit when it truncates on TCP, never has to drop a record; nothing is reserved for the other protocols", "C08-R17": "a pooled receive buffer is returned only after the request decoded from it has been served (buffer-lifetime rules shared with C06-R2)", "C08-R15": "the simple cache leaves the cached OPT record out of a hit (hop-by-hop options of the first requester do not reach later clients)", "C08-R16": "genErrorResponse builds the server's own error answers by SetRcode alone, so normalize gives them a fresh OPT record", "C08-R14": "optCloner.clone resets every field of the pooled OPT record, so padding and keep-alive options of an earlier response do not reach another client (shared with C07-R1)", "C08-RC": "class rules (error chains, shadowed results, character classes, crossed arguments, pool constructors, array pools, loop completeness, loop-carried buffers, replacing setters, complete clones, Grow arithmetic, pooled-buffer escape, sorted searches, fresh decode targets, per-iteration objects, whole-message copies, codec guards) over the packages this property rests on", "C08-R13": "addEDE builds a fresh response OPT from the request's UDP size and DO bit only", "C08-R12": "the filtered response is written once and for the original request (pipeline table shared with C01-R10)", "C08-R1": "normalise-before-serialise in every wire writer", "C08-R2": "maxDNSSize over all orderings",
 				"C08-R3": "truncate / packWithPrefix gates", "C08-R4": "normalize decision tree and OPT fields",
 				"C08-R5": "padding / keep-alive / option filter gates", "C08-R6": "pooled OPT records are reset before reuse", "C08-R7": "no handler modifies the EDNS data of the request message"},
 		}})
 }
 
 func runC08(c *an.Ctx) {
+	// ---- R19: hop-to-hop options are removed before the response is cached (shared with C04-R5)
+	c.Floor("C08-R19", 1)
+	ecsStoreOrder(c, "C08-R19")
 	classSweep(c, "C08")
 	// ---- R17: the bytes of a datagram stay that request's own until it has been served: what is answered is sized by
 	// this client's EDNS settings, not by those of the datagram that overwrote the buffer (shared with C06-R2)
@@ -235,6 +238,12 @@ func runC08(c *an.Ctx) {
 				return it.Feature("pad"), true
 			case name == "dnsserver.maxDNSSize":
 				return an.Sym("maxsize(" + args[0].String() + "," + args[1].String() + "," + args[2].String() + ")"), true
+			case name == "dnsserver.reservedLen":
+				// what the transport itself adds to every message (the DNSCrypt header); its table is R18
+				if args[0].String() != "p1" {
+					return an.Sym("reserved length of another protocol"), true
+				}
+				return an.Sym("reserved(p1)"), true
 			case name == "dnsserver.filterUnsupportedOptions":
 				return an.Sym("filtered(" + args[0].String() + ")"), true
 			}
@@ -260,8 +269,8 @@ func runC08(c *an.Ctx) {
 			}
 			padded := idx(func(e an.Effect) bool { return e.Kind == "call" && e.Name == "dnsserver.padAnswer" })
 			if !f.B("reqopt") {
-				if trunc("maxsize(p0,0,p4)") < 0 {
-					return "truncation to maxDNSSize(network, 0, max) when the request has no OPT"
+				if trunc("(maxsize(p0,0,p4) - reserved(p1))") < 0 {
+					return "truncation to maxDNSSize(network, 0, max), less what the protocol reserves, when the request has no OPT"
 				}
 				if padded >= 0 {
 					return "no padding without a request OPT"
@@ -277,7 +286,7 @@ func runC08(c *an.Ctx) {
 			// padding (an option of up to 4 + 32 bytes) is added after truncation, so the limit leaves room for it
 			// exactly when padding will be added
 			willPad := f.B("pad") && f.B("reqpad")
-			limit := "maxsize(p0," + size + ",p4)"
+			limit := "(maxsize(p0," + size + ",p4) - reserved(p1))"
 			if willPad {
 				limit = fmt.Sprintf("(%s - %d)", limit, 4+padMax)
 			}
@@ -479,6 +488,39 @@ func runC08(c *an.Ctx) {
 	// ---- R7: handlers never rewrite the client's request, against which the writers normalise the response
 	c.Floor("C08-R7", 8)
 	sharedReqNotMutated(c, "C08-R7")
+
+	// ---- R18: what normalize leaves to the transport: for DNSCrypt exactly what the dnscrypt module subtracts from
+	// the size before it truncates (and it keeps the answers that still fit on TCP), nothing for the others
+	c.Floor("C08-R18", 1)
+	libReserve := int64(-1)
+	if pkg := c.Prog.SSA.ImportedPackage("github.com/ameshkov/dnscrypt/v2"); pkg != nil {
+		if fn := pkg.Func("normalize"); fn != nil && fn.Blocks != nil {
+			an.Instrs(fn, func(in ssa.Instruction) {
+				if b, ok := in.(*ssa.BinOp); ok && b.Op == token.SUB {
+					if k, ok := b.Y.(*ssa.Const); ok && k.Value != nil {
+						libReserve = k.Int64()
+					}
+				}
+			})
+		}
+	}
+	if libReserve < 0 {
+		c.Und("C08-R18", "dnsserver.reservedLen", token.NoPos, "the dnscrypt module's normalize (size - reserve) was not found")
+	} else {
+		decide(c, "C08-R18", "dnsserver.reservedLen", an.DecideCfg{
+			Dom: an.Domain{"p0": an.Ints(0, pDNS, pDoH, pDoQ, pDoT, pCrypt, 1, 2)},
+			Expect: func(f an.Features, o an.AOutcome) string {
+				want := int64(0)
+				if f.I("p0") == pCrypt {
+					want = libReserve
+				}
+				if o.RetString() == fmt.Sprint(want) {
+					return ""
+				}
+				return fmt.Sprintf("%d for protocol %d (the %d bytes the dnscrypt module reserves for its header, for DNSCrypt only)", want, f.I("p0"), libReserve)
+			},
+		})
+	}
 
 	// ---- R5
 	for _, m := range []string{"HasPaddingSupport", "IsStdEncrypted"} {
